@@ -162,6 +162,9 @@ pub fn run(rep: &Report) -> i32 {
         let ms = mutate::near_misses(base);
         rep.transition(ms.len() as u64);
         for (mi, (op, m)) in ms.iter().enumerate() {
+            if rep.out_of_time() {
+                break;
+            }
             for (li, l) in layouts.iter().enumerate() {
                 if li >= 2 && (mi + li) % (if quick { 6 } else { 2 }) != 0 {
                     continue;
